@@ -7,7 +7,7 @@ patch=$(readlink -f "$1"); tier=$2; shift 2
 wt=$(mktemp -d /tmp/seedwt-XXXXXX); ev=$(mktemp -d /tmp/seedev-XXXXXX)
 git -C /repo worktree add --detach "$wt" HEAD >/dev/null 2>&1 || { echo "cannot create worktree"; exit 2; }
 trap 'git -C /repo worktree remove --force "$wt" >/dev/null 2>&1; rm -rf "$wt" "$ev"' EXIT
-( cd "$wt" && git apply "$patch" ) || { echo "patch does not apply"; exit 2; }
+( cd "$wt" && { git apply "$patch" 2>/dev/null || git apply -3 "$patch"; } ) || { echo "patch does not apply"; exit 2; }
 for p in "$@"; do
   echo "=== $p ($tier) with $(basename $(dirname $patch))/$(basename $patch)"
   (cd /verif && VERIF_REPO="$wt" VERIF_EVIDENCE="$ev" python3 tools/check.py $p --tier $tier 2>&1 | tail -12; echo "exit=${PIPESTATUS[0]}")
